@@ -2,6 +2,6 @@ SPECIFICATION Spec
 CONSTANTS
   MaxSet = 2
   Wide = TRUE
-  Roots = {"zvleaf", "zvodd", "zvbox", "zvnode", "zvwrap", "zvpair", "zvemb", "eventdemo", "snoopy", "hornet", "weather", "setOfPlanes", "nestouter"}
+  Roots = {"zvleaf", "zvodd", "zvbox", "zvnode", "zvwrap", "zvpair", "zvemb", "zvtower", "eventdemo", "snoopy", "hornet", "weather", "setOfPlanes", "nestouter"}
 INVARIANTS WellTyped NoLoss OneObject MatcherOk DropSeen UnknownKey WrongKind Deviations
 CHECK_DEADLOCK FALSE
